@@ -14,6 +14,10 @@ impl LineTerminator {
     pub open spec fn seq_view(&self) -> Seq<u8> {
         if self.crlf_view() { seq![13u8, 10u8] } else { seq![self.byte_view()] }
     }
+    /// a CRLF terminator ends lines at the byte `\n`
+    pub proof fn lemma_crlf_byte(&self)
+        ensures self.crlf_view() ==> self.byte_view() == 10u8,
+    {}
 }
 
 // `bytes[m]` for m: Match is only defined for m.start <= m.end <= len (std slice indexing panics otherwise)
